@@ -13,7 +13,7 @@ RULES = {
             "arguments only (no terminal/ambient/receiver state outside the key) and no caller mutates its result in place",
     "R1": "immutability is an effect property: outside constructors (__new__/__init__/__init_subclass__) no method of RenderArgs, "
           "ArgsNamespace, Frame, AlignedPadding, ExactPadding stores to an attribute/item of self, a parameter or a class, and no method "
-          "calls a mutator (update/setdefault/pop/clear/append/__setitem__ as a statement) on a container that is not fresh in that method",
+          "calls a mutator (update/setdefault/pop/clear/append/__setitem__ as a statement) on a container that is not fresh in that method; update() returns self by what was given (no field / namespace), never under an equality comparison of values",
     "R2": "shared default tables are read-only: every binding of _ALL_DEFAULT_ARGS, _RENDER_DATA_MRO, _FIELDS and _namespaces is a "
           "MappingProxyType(...) over a mapping built for that binding; RenderArgs.__init__ works on a .copy() of the class defaults",
     "R3": "the interning shortcut cannot re-initialise a shared object: the single mutating statement of RenderArgs.__init__ is dominated by "
